@@ -50,6 +50,7 @@ def classify(f):
 
 
 def run(ctx):
+    ctx.no_watchdog()   # this check runs the implementation in worker processes / under its own alarms
     rng = ctx.rng
     nworlds = (10 if ctx.tier == "quick" else 60) * ctx.escalate
     tasks = matrix.gen_tasks(rng, nworlds, ctx.tier if ctx.tier == "quick" else "quick")
